@@ -117,8 +117,19 @@ def run(tier, regenerate=True):
     chk.extra["mir_regeneration_s"] = prog.timings
     results = par.map_entries(lambda s: FC.explore_scenario(prog, s, judge), scen)
     FC.collect(chk, results, confirm)
+    # ---- database backend: replace_all_events / patch_checked of DatabaseEventLog over the table model (see C06)
+    from . import c06_db, c06
+    dprog = H.load_program(c06_db.CRATES, regenerate=regenerate)
+    chk.extra["mir_regeneration_s"].update(dprog.timings)
+    dscen = c06_db.scenarios_c07(tier)
+    chk.bounds["database_scenarios"] = {"count": len(dscen), "operations": ["replace_all_events (1-2 new events, checkpoint = head of any log of 1..3 leaves from the pool)",
+                                                                                "patch_checked (1 event, checkpoint likewise)", "rewind to an absent commit (in C06)"],
+                                        "records_in_this_log_max": 2 if tier == "quick" else 3}
+    dres = par.map_entries(lambda sc: c06_db.run_scenario(dprog, sc), dscen)
+    FC.collect(chk, dres, c06.db_confirm)
     chk.assumptions = [
-        "file-system backend only; the sqlite implementation, the server-side event_patch and the client rewind_local orchestration are outside",
+        "file-system backend, and DatabaseEventLog over mirsym/sqlmodel.py (statements as built by the code, rows as lists, sqlite "
+        "itself not executed); the server-side event_patch and the client rewind_local orchestration are outside",
         "file API = vfs model (atomic operations, no I/O errors); rs_merkle = ideal-hash model (validated in C08)",
     ]
     return chk.finish(rule="one state = one path of one operation on a k-record log with symbolic checkpoint and patch")
